@@ -12,7 +12,7 @@ from sim.disk import SimDisk
 
 ID = "C07"
 GUARD_KERNELS = True
-SHRINK_LISTS = ("ops", "faults")
+SHRINK_LISTS = ("ops", "faults", "pre", ("files", "nsamps"))
 SHRINK_MIN = {"nchans": 1, "nbits": 1, "gulp": 1, "tfactor": 1, "ffactor": 1, "nsub": 1, "batch_size": 1, "chanpersub": 2, "nchans_b": 2}
 
 
@@ -82,7 +82,10 @@ def generate(rng, tier) -> dict:
             kind = rng.choice(["R1", "R2", "W3", "W3"])
             faults.append({"kind": kind, "op": rng.randrange(len(ops)), "call": rng.choice([0, 1, 1, 2, 3, 4]),
                            "arg": rng.choice([0, 1, 3, rng.randint(0, 64)])})
-    return {"files": spec, "name": name, "params": params, "start": start, "nsamps": nsamps, "ops": ops, "faults": faults}
+    from .c06 import gen_pre
+
+    pre = gen_pre(rng, N) if rng.random() < 0.3 else []
+    return {"files": spec, "name": name, "params": params, "start": start, "nsamps": nsamps, "pre": pre, "ops": ops, "faults": faults}
 
 
 def fixup(sc):
@@ -98,6 +101,10 @@ def fixup(sc):
     if sc["nsamps"] is not None:
         sc["nsamps"] = max(1, min(sc["nsamps"], N - sc["start"]))
     for o in sc["ops"]:
+        o["gulp"] = max(1, o["gulp"])
+    for o in sc.get("pre", []):
+        o["start"] = max(0, min(o["start"], N - 1))
+        o["nsamps"] = max(1, min(o["nsamps"], N - o["start"]))
         o["gulp"] = max(1, o["gulp"])
     p, nch, nb = sc["params"], f["nchans"], f["nbits"]
     name = sc["name"]
@@ -221,6 +228,12 @@ def execute(sc, ctx) -> None:
             ctx.probe("zerodm:in-range")
         ns_out = exps[0].data.shape[0]
         crcs = []
+        if sc.get("pre"):
+            # earlier, unrelated calls on the SAME reader object: the transform must not depend on them
+            from .c06 import run_pre
+
+            sim.begin_op(-1, budget=100000)
+            run_pre(reader, sc["pre"], ctx)
         for i, op in enumerate(sc["ops"]):
             gulp = op["gulp"]
             # probes from the arguments
@@ -252,7 +265,7 @@ def execute(sc, ctx) -> None:
             sim.free_space()
             fired0 = sum(ctx.faults.values())
             info = {"api": name, "params": params, "gulp": gulp, "start": start, "nsamps": ns, "N": N, "nbits": nbits,
-                    "nchans": nchans, "eof": eof, "nfiles": len(spec["nsamps"]), "nblocks": nblk, "op_index": i}
+                    "nchans": nchans, "eof": eof, "nfiles": len(spec["nsamps"]), "nblocks": nblk, "op_index": i, "pre": sc.get("pre", [])}
             raised = None
             outs = None
             try:
